@@ -4,3 +4,13 @@ open IrVerif.Kernel
 #print axioms C06_rename_values_atomic
 #print axioms C06_rauw_many_atomic
 #print axioms C06_view_atomic
+#print axioms C06_rejects_foreign_value
+#print axioms C06_rejects_produced_value
+#print axioms C06_rejects_foreign_node
+#print axioms C06_rejects_unsafe_removal
+#print axioms C06_rejects_initializer_name_collision
+#print axioms C06_rejects_missing_name
+#print axioms C06_rejects_index_out_of_range
+#print axioms C06_rejects_sort_cycle
+#print axioms C06_rejects_shrink_with_uses
+#print axioms C06_retry
